@@ -47,6 +47,10 @@ pub struct GarbageTrace {
     /// chain coder only: `change_precision` to `.1` before decode number `.0`
     #[serde(default)]
     pub changes: Vec<(usize, u8)>,
+    /// range decoder only: build the decoder from raw parts - (lower, range, point) as (hi, lo)
+    /// pairs - over the data, i.e. from a stored snapshot that may be corrupted as well
+    #[serde(default)]
+    pub raw_state: Option<((u64, u64), (u64, u64), (u64, u64))>,
 }
 
 macro_rules! viol {
@@ -140,6 +144,20 @@ fn exec_cfg<C: Ws>(t: &GarbageTrace, ctx: &mut Ctx) -> Result<(), Violation> {
                     let d = if binary { AnsCoder::<C::W, C::S, _>::from_reversed_binary_iter(items.into_iter()).ok() } else { AnsCoder::<C::W, C::S, _>::from_reversed_compressed_iter(items.into_iter()).ok() };
                     match d { Some(d) => decode_all!(d, None, "AnsCoder<iterator>", None), None => ctx.stats.hit("constructor-refused") }
                 }
+            }
+        }
+        CoderKind::Range if t.raw_state.is_some() => {
+            use constriction::stream::queue::RangeCoderState;
+            let (lo, ra, pt) = t.raw_state.expect("checked");
+            let pair = |x: (u64, u64)| -> u128 { ((x.0 as u128) << 64) | x.1 as u128 };
+            ctx.stats.hit("fault-corrupted-snapshot");
+            // a snapshot is only usable if the library's own validators accept it
+            match RangeCoderState::<C::W, C::S>::new(s_from(pair(lo)), s_from(pair(ra))) {
+                Ok(state) => match RangeDecoder::<C::W, C::S, _>::from_raw_parts(Cursor::new_at_write_beginning(data.clone()), state, s_from(pair(pt))) {
+                    Ok(d) => decode_all!(d, Some("InvalidData"), "RangeDecoder::from_raw_parts", None),
+                    Err(_) => ctx.stats.hit("constructor-refused"),
+                },
+                Err(()) => ctx.stats.hit("constructor-refused"),
             }
         }
         CoderKind::Range => match t.src {
@@ -339,14 +357,32 @@ pub fn generate(seed: u64, _prop: &str, _thorough: bool) -> GarbageTrace {
             }
         }
     };
-    let _ = sb;
     let src = *bias.pick(&[Src::Vec, Src::Vec, Src::Slice, Src::Iter]);
     let err_at = if src == Src::Iter && frng.chance(1, 2) { Some(frng.usize(data.len() + 1)) } else { None };
     let changes: Vec<(usize, u8)> = match p_alt {
         Some(pa) => { let mut v = Vec::new(); let mut cur = p0; for i in 0..decodes.len() { if rng.chance(1, 5) { cur = if cur == p0 { pa } else { p0 }; v.push((i, cur)); } } v }
         None => Vec::new(),
     };
-    GarbageTrace { cfg, coder, src, err_at, data, origin: origin.to_string(), p0, models, decodes, changes }
+    let raw_state = if coder == CoderKind::Range && frng.chance(1, 4) {
+        let mask: u128 = if sb >= 128 { u128::MAX } else { (1u128 << sb) - 1 };
+        let thr: u128 = 1u128 << (sb - wb);
+        let any = |r: &mut Rng| -> u128 { (((r.next_u64() as u128) << 64) | r.next_u64() as u128) & mask };
+        let range = match frng.below(6) {
+            0 => thr,
+            1 => thr - 1 - (frng.next_u64() as u128 % (thr / 2).max(1)),
+            2 => thr + (frng.next_u64() as u128 % thr),
+            3 => mask,
+            4 => any(&mut frng) % thr,
+            _ => any(&mut frng) | thr,
+        } & mask;
+        let lower = if frng.chance(1, 3) { 0 } else { any(&mut frng) };
+        let point = if frng.chance(2, 3) { lower.wrapping_add(any(&mut frng) % range.max(1)) & mask } else { any(&mut frng) };
+        let split = |x: u128| ((x >> 64) as u64, x as u64);
+        Some((split(lower), split(range), split(point)))
+    } else {
+        None
+    };
+    GarbageTrace { cfg, coder, src, err_at, data, origin: origin.to_string(), p0, models, decodes, changes, raw_state }
 }
 
 fn mask64(bits: u32) -> u64 {
